@@ -705,3 +705,25 @@ Proof.
   intros ka ka' kb Hp Hnd. unfold first_missing_key_sorted.
   rewrite (sort_keys_perm_invariant ka ka' Hp Hnd). reflexivity.
 Qed.
+
+(* ------------------------------------------------ error accumulation *)
+Theorem error_list_perm_invariant_lemma :
+  forall (A E : Type) (chk : bytes -> A -> option E) (l l' : list (bytes * A)),
+  Permutation l l' -> NoDup (map fst l) ->
+  collect_errors_sorted chk l = collect_errors_sorted chk l'.
+Proof.
+  intros A E chk l l' Hp Hnd. unfold collect_errors_sorted.
+  rewrite (sort_keys_perm_invariant l l' Hp Hnd). reflexivity.
+Qed.
+
+Theorem error_list_unsorted_refuted_lemma :
+  exists (chk : bytes -> bool -> option bytes) (l l' : list (bytes * bool)),
+    Permutation l l' /\ NoDup (map fst l) /\
+    collect_errors chk l <> collect_errors chk l'.
+Proof.
+  exists (fun (k : bytes) (bad : bool) => if bad then Some k else None).
+  exists [(bs "a", true); (bs "b", true)], [(bs "b", true); (bs "a", true)].
+  split; [apply perm_swap|]. split.
+  - apply nodup_keys_NoDup. vm_compute. reflexivity.
+  - vm_compute. discriminate.
+Qed.
